@@ -1,11 +1,13 @@
 /-
 Driver of the schema-language model (C15/C14): one operation per line.
+  compile <class> <pkg/file=hex;...> →   ok | err | unmodelled   (C14: the rules of the language)
   parse <hex of the source text>   →   <tokens, tab separated> | ok <dump>   or   ... | err
                                         unmodelled               (outside the lexer model)
   toks <hex>                        →   the token part only
 -/
 import SpecVerif.Lang.Lexer
 import SpecVerif.Lang.Parser
+import SpecVerif.Lang.Check
 open SpecVerif.Lang
 
 def hexVal (c : Char) : Option Nat :=
@@ -23,6 +25,49 @@ def parseHexChars : List Char → List Char → Option (List Char)
 
 def parseText (hex : String) : Option (List Char) :=
   if hex = "-" then some [] else parseHexChars hex.toList []
+
+/-- one file of a bundle: `pkg/file=hex` -/
+inductive FileRes
+  | ok (pkg name : String) (f : File)
+  | parseErr
+  | unmodelled
+  | bad
+
+def readPart (part : String) : FileRes :=
+  match part.splitOn "=" with
+  | [k, hex] =>
+    (match k.splitOn "/" with
+     | [pkg, name] =>
+       (match parseText hex with
+        | none => .bad
+        | some cs =>
+          match lexChars cs with
+          | none => .unmodelled
+          | some ts =>
+            match parseFile ts with
+            | some f => .ok pkg name f
+            | none => .parseErr)
+     | _ => .bad)
+  | _ => .bad
+
+def plainId (s : String) : Bool := !s.isEmpty && s.toList.all fun c => isIdChar c
+
+/-- group the files by package, keeping the order of first appearance -/
+def groupFiles (fs : List (String × String × File)) : Bundle :=
+  let ids := fs.foldl (fun acc (p, _, _) => if p ∈ acc then acc else acc ++ [p]) ([] : List String)
+  ids.map fun id => { id := id, files := (fs.filter fun (p, _, _) => p == id).map fun (_, n, f) => { name := n, file := f } }
+
+/-- `compile <class> <bundle>` → ok | err | unmodelled -/
+def compileAnswer (bundle : String) : String :=
+  let parts := (bundle.splitOn ";").map readPart
+  if parts.any (fun r => match r with | .bad => true | _ => false) then "bad-op"
+  else if parts.any (fun r => match r with | .unmodelled => true | _ => false) then "unmodelled"
+  else if parts.any (fun r => match r with | .parseErr => true | _ => false) then "err"
+  else
+    let fs := parts.filterMap fun r => match r with | .ok p n f => some (p, n, f) | _ => none
+    let b := groupFiles fs
+    if b.any (fun p => p.files.any fun pf => pf.file.imports.any fun im => !plainId im.id) then "unmodelled"
+    else if wfBundle b then "ok" else "err"
 
 def answer (line : String) : String :=
   match line.splitOn " " with
@@ -48,6 +93,7 @@ def answer (line : String) : String :=
             | some f => "ok " ++ f.dump ++ (if f.dump = String.ofList w then "" else " MODEL-DIFFERS")
             | none => "err MODEL-DIFFERS")
      | _, _ => "bad-op")
+  | ["compile", _, bundle] => compileAnswer bundle
   | ["toks", hex] =>
     (match parseText hex with
      | none => "bad-op"
